@@ -55,7 +55,7 @@ Print Assumptions roundtrip_idempotent.
 Theorem roundtrip_idempotent_plain : forall cx v, supp 0 cx v -> forall fuel,
   exists j1 v1 j2, ser fuel fixed cx v = Some j1 /\ deser fixed cx (json_rt j1) = Some v1 /\
                    ser fuel fixed cx v1 = Some j2 /\ deser fixed cx (json_rt j2) = Some v1.
-Proof. exact roundtrip_idempotent_plain. Qed.
+Proof. exact roundtrip_idempotent_plain_lemma. Qed.
 Print Assumptions roundtrip_idempotent_plain.
 
 Theorem tuples_to_lists_idempotent : forall v, t2l (t2l v) = t2l v.
